@@ -868,6 +868,36 @@ class SymBytes:
             i += 1
         return SymBytes(self.items[i:])
 
+    def replace(self, old, new, count=-1):
+        """bytes.replace for a concrete pattern: non-overlapping occurrences, left to right (forks on every possible match)."""
+        old = list(old.items if isinstance(old, SymBytes) else old)
+        new = list(new.items if isinstance(new, SymBytes) else new)
+        if not old:
+            raise NotImplementedError('replace of the empty pattern')
+        out, i, n = [], 0, len(self.items)
+        while i < n:
+            if count != 0 and i + len(old) <= n and builtins.bool(SymBool(z3.And([bv(a) == bv(b) for a, b in zip(self.items[i:i + len(old)], old)]))):
+                out.extend(new)
+                i += len(old)
+                if count > 0:
+                    count -= 1
+            else:
+                out.append(self.items[i])
+                i += 1
+        return SymBytes(out)
+
+    def find(self, sub, start=0):
+        sub = list(sub.items if isinstance(sub, SymBytes) else sub)
+        for i in range(start, len(self.items) - len(sub) + 1):
+            if not sub or builtins.bool(SymBool(z3.And([bv(a) == bv(b) for a, b in zip(self.items[i:i + len(sub)], sub)]))):
+                return i
+        return -1
+
+    def __contains__(self, x):
+        if isinstance(x, (builtins.int, SymInt)):
+            return builtins.bool(SymBool(z3.Or([bv(a) == bv(x) for a in self.items]))) if self.items else False
+        return self.find(x) >= 0
+
     def hex(self):
         return SymHex(self)
 
